@@ -36,14 +36,20 @@ theorem flushHeaders_no_panic (w : World) (st : St) : (flushHeaders w st).2 = fa
       simp at h
     · rfl
 
+theorem reportEnd_tail_no_panic (w : World) (st1 : St) (e1 : RespEnd) :
+    (if st1.rw.headersFlushed then (writeEnd st1 e1 false, false) else
+      flushHeaders w { st1 with rw := { st1.rw with respMeta := some { (st1.rw.respMeta.getD {}) with «end» := some e1 } } }).2
+      = false := by
+  split
+  · rfl
+  · exact flushHeaders_no_panic w _
+
 theorem reportEnd_no_panic (w : World) (st : St) (e : RespEnd) : (reportEnd w st e).2 = false := by
   unfold reportEnd
   by_cases h1 : st.rw.endWritten = true
   · simp [h1]
   · simp only [h1, Bool.false_eq_true, if_false]
-    split
-    · rfl
-    · exact flushHeaders_no_panic w _
+    exact reportEnd_tail_no_panic w _ _
 
 theorem reportError_no_panic (w : World) (st : St) (err : Err) : (reportError w st err).2 = false := by
   unfold reportError
